@@ -216,6 +216,18 @@ CHECKS["C12"] = {
     ],
 }
 
+CHECKS["C13"] = {
+    "engine": "simnet",
+    "level": "exploration",
+    "technique": "stateful property-based testing (rapid): reachability-event histories and inbound requests against the real mode switch; behavioural oracle f(option, last event)",
+    "level_text": "Generated sequences of reachability events and inbound requests on new and previously opened streams run against the real IpfsDHT over the fake host; the mode is observed by behaviour (handler registered, "
+                  "streams reset, requests answered or not) and compared with the function of the option and the last event. Exploration: histories are sampled; the state space (4 options x 3 reachabilities) is covered many times over.",
+    "level_note": "Requests and events are interleaved at quiescent points only (an event delivered at the very instant of a request is not asserted); the fake network's connection registry feeds the demotion's stream reset.",
+    "parts": [
+        {"part": "modes", "pkg": ROOT, "test": "TestVerif_C13_Modes", "quick": 1500, "thorough": 20000},
+    ],
+}
+
 MANIFEST_HEAD = {
     "version": 1,
     "setup_cmd": "bin/check --setup",
